@@ -89,6 +89,7 @@ struct FnCfg {
     ret_name: String,
     keep_name: bool,
     no_eager_iter: bool,
+    contains_as_loop: bool,
 }
 
 struct R<'a> {
@@ -577,6 +578,18 @@ impl<'a> R<'a> {
                     rv = rv,
                     init = init,
                     body = body
+                ))
+            }
+            ("contains", 1) if self.fc.contains_as_loop => {
+                // R3: `V.contains(&x)` on a Vec / slice: linear search with `==` (what slice::contains does)
+                self.rule("R3:consumer-desugaring");
+                let recv = self.render_expr(&mc.receiver);
+                let arg = self.render_expr(&mc.args[0]);
+                let k = self.fresh();
+                self.loop_sigs.insert(k, format!("contains:{}", norm(self.text(mc.receiver.span()))));
+                Some(format!(
+                    "{{ let __c{k} = {arg}; let mut __r{k}: bool = false;\n/*@PRE#{k}@*/ for __e{k} in __it{k}: ({recv}).iter() /*@INV#{k}@*/ {{ /*@TOP#{k}@*/\nif !__r{k} {{ if *__e{k} == *__c{k} {{ __r{k} = true; }} }}\n/*@BOT#{k}@*/ }} /*@POST#{k}@*/\n__r{k} }}",
+                    k = k, arg = arg, recv = recv
                 ))
             }
             ("next", 0) => {
@@ -1329,7 +1342,7 @@ fn renumber(text: &str, sigs: &HashMap<usize, String>, baseline: &[String]) -> (
     // two passes through a placeholder so that renamed ordinals cannot collide with not-yet-renamed ids
     for (idx, id) in loops.iter().enumerate() {
         let k = ordinals[idx];
-        for pre in ["__it", "__e", "__s", "__out", "__r", "__n", "__p"] {
+        for pre in ["__it", "__e", "__s", "__out", "__r", "__n", "__p", "__c"] {
             out = replace_word(&out, &format!("{}{}", pre, id), &format!("{}_~{}", pre, k));
         }
         // map temporaries: __m<id>x<i>
@@ -1741,6 +1754,7 @@ fn main() {
             ret_name: it["ret_name"].as_str().unwrap_or("res").to_string(),
             keep_name: false,
             no_eager_iter: it["no_eager_iter"].as_bool().unwrap_or(false),
+            contains_as_loop: it["contains_as_loop"].as_bool().unwrap_or(false),
         };
         let opaque_fields: Vec<String> = it["opaque_fields"]
             .as_array()
